@@ -7,7 +7,7 @@ from .. import observe as O
 from .c01 import W2
 from .c02 import pool
 
-UN_POOLS = {"U2": lambda: G.fa_cases(2, 2, 0, 12), "U3": lambda: G.fa_cases(3, 2, 0, 3),
+UN_POOLS = {"U2": lambda: G.fa_cases(2, 2, 0, 12), "U3": lambda: G.fa_cases(3, 2, 0, 3), "U3_2": lambda: G.fa_cases(3, 2, 0, 2),
             "U3_4": lambda: G.fa_cases(3, 2, 4, 4), "U41": lambda: G.fa_cases(4, 1, 0, 4)}
 
 
@@ -75,6 +75,8 @@ class C03(Prop):
         if tier == "quick":
             return [Layer("unary FA(2,2,<=12)", lambda: self.un_cases("U2"), rep=rep_un),
                     Layer("unary FA(3,2,<=3)", lambda: self.un_cases("U3"), rep=rep_un),
+                    Layer("unary FA(3,2,<=2)/names:reserved", lambda: self.un_cases("U3_2"), rep=None,
+                          policies=["natural@reserved2", "1@reserved2"]),
                     Layer("boolean P2xP1", lambda: self.bin_cases("bool", "P2", "P1")),
                     Layer("boolean P1xP2{b,c}", lambda: self.bin_cases("bool", "P1", "P2", ("b", "c"))),
                     Layer("rational P1xP1", lambda: self.bin_cases("rat", "P1", "P1"), policies=two),
@@ -159,6 +161,25 @@ class C03(Prop):
             w = R.distinguish(x0, x.value)
             ctx.expect(w is None, clause, witness=w)
 
+    def _unary_typed(self, ctx, ca, ra, cls, scheme):
+        """complement / reverse on an NFA- or DFA-typed operand; the operand must be untouched afterwards"""
+        b = ctx.call(O.build_fa, ca, cls, scheme)
+        if not ctx.returns(b, "C03.build", cls=cls):
+            return
+        b = b.value
+        snap = snapshot(b)
+        sigma = sorted(ra.alphabet)
+        self._result(ctx, "C03.complement", ctx.call(b.get_complement),
+                     lambda x: R.complement_witness(ra, x, sigma), [], None, cls=cls)
+        rr = ra.reverse()
+        self._result(ctx, "C03.reverse", ctx.call(b.reverse), lambda x: R.distinguish(rr, x), [], None, cls=cls)
+        ctx.expect(snapshot(b) == snap, "C03.unary.operands_unchanged", cls=cls)
+        w = R.distinguish(ra, O.extract_fa(b))
+        ctx.expect(w is None, "C03.unary.operands_unchanged", cls=cls, witness=w)
+        inter = ctx.call(lambda: b & (-b))
+        if ctx.returns(inter, "C03.intersection", cls=cls, what="a & -a"):
+            ctx.expect(O.extract_fa(inter.value).is_empty(), "C03.intersection.lang", cls=cls, what="a & -a is not empty")
+
     def check(self, case, ref, ctx):
         scheme = ctx.variant or "int"
         ca, cb, symsb, same = self.resolve(case)
@@ -169,6 +190,9 @@ class C03(Prop):
         a = a.value
         snap_a = snapshot(a)
         if cb is None:
+            kind = O.case_kind(ca)
+            for cls in (["nfa"] if kind in ("nfa", "dfa") else []) + (["dfa"] if kind == "dfa" else []):
+                self._unary_typed(ctx, ca, ra, cls, scheme)
             sigma = sorted(ra.alphabet)
             x = self._result(ctx, "C03.complement", ctx.call(a.get_complement),
                              lambda x: R.complement_witness(ra, x, sigma),
